@@ -8,7 +8,8 @@ from .common import fhex, frac_of_bits, parse_q, f32_bits, bits_f32
 RULE = ("control-point / coefficient vectors of length 0..8 with magnitudes up to 1e6 (and small ones), evaluation points in [-2,2], "
         "durations and stretch factors with 0.05 <= |k| <= 20; deriv/scale/stretch/add-constant on random vectors; solve / touches / "
         "extrema for degree <= 3 with a well-conditioned leading coefficient (>= 5% of the largest lower-order one), right-hand "
-        "sides in and around the range on [0,1], roots not within 2e-3 of each other or (touches) of the interval ends; a class of "
+        "sides in and around the range on [0,1], roots not within 2e-3 of each other or (touches) of the interval ends; classes aimed at the closed forms (a non-leading "
+        "coefficient exactly zero, roots exactly at 0 and 1, double roots); a class of "
         "degree > 3 extrema (recorded finding D13). Non-trivial = vectors of length >= 2.")
 EXPLANATION = ("coefficients: |impl - exact| <= (2j+8) 2^-23 M_j with M_j the magnitude sum of the terms of coefficient j; values: "
                "(2n+8) 2^-23 sum M_j |u|^j; roots: the number of returned roots equals the number of certified sign-change boxes "
@@ -77,6 +78,46 @@ def cases(rng, tier):
             yield ("poly solve %s %s" % (hexcsv(cs), fhex(y)), "solve%d" % deg)
             yield ("poly touches %s %s" % (hexcsv(cs), fhex(y)), "touches%d" % deg)
         yield ("poly extrema %s" % hexcsv(cs), "extrema%d" % deg)
+    # aimed at the closed forms: a non-leading coefficient that is exactly zero (quadratic without linear term,
+    # cubic without quadratic term, ...), roots exactly at 0 and 1, double roots
+    for i in range(n // 4 if tier == "thorough" else n // 10):
+        deg = rng.choice([2, 2, 2, 3, 3])
+        mag = rng.choice([1, 10, 1000])
+        kind = rng.choice(["zero-coeff", "zero-coeff", "zero-coeff", "end-roots", "double"])
+        if kind == "zero-coeff":
+            while True:
+                cs = [rnd_val(rng, mag) for _ in range(deg + 1)]
+                cs[rng.randrange(0, deg)] = 0.0
+                if deg == 2 and cs[1] == 0.0 and rng.random() < 0.8:
+                    # two distinct real roots +-sqrt(-c/a), placed in and around [0,1]
+                    cs[0] = f32(-cs[2] * rng.choice([0.04, 0.25, 0.5, 0.81, 1.0, 2.25]))
+                if well_conditioned(cs):
+                    break
+        elif kind == "end-roots":
+            a = rnd_val(rng, mag) or 1.0
+            r1 = rng.choice([0.0, 1.0])
+            r2 = rng.choice([x for x in (0.0, 1.0, 0.5, 2.0, -1.0) if x != r1])      # distinct: a double root is ill-conditioned
+            cs = [f32(a * r1 * r2), f32(-a * (r1 + r2)), f32(a)]        # a (x - r1)(x - r2)
+        else:
+            a = rnd_val(rng, mag) or 1.0
+            r = rng.choice([0.25, 0.5, 0.75, 1.0])
+            cs = [f32(a * r * r), f32(-2 * a * r), f32(a)]
+        vals = [sum(c * (t / 8.0) ** j for j, c in enumerate(cs)) for t in range(9)]
+        lo, hi = min(vals), max(vals)
+        span = max(hi - lo, 1e-3 * mag)
+        ys = [0.0, f32(rng.uniform(lo, hi)), f32(rng.uniform(lo - span, hi + span))]
+        for y in ys:
+            if kind == "double" and y == 0.0:
+                continue        # a double root is ill-conditioned: outside the property's domain
+            yield ("poly solve %s %s" % (hexcsv(cs), fhex(y)), "aimed-solve%d" % (len(cs) - 1))
+            yield ("poly touches %s %s" % (hexcsv(cs), fhex(y)), "aimed-touches%d" % (len(cs) - 1))
+        if kind != "double":
+            yield ("poly extrema %s" % hexcsv(cs), "aimed-extrema%d" % (len(cs) - 1))
+        if deg == 2:
+            # the cubic whose derivative is this quadratic: extrema go through the quadratic solver
+            cub = [rnd_val(rng, mag), cs[0], f32(cs[1] / 2), f32(cs[2] / 3)]
+            if kind != "double":
+                yield ("poly extrema %s" % hexcsv(cub), "aimed-extrema3")
     for i in range(60):
         cs = [rnd_val(rng, 100) for _ in range(rng.choice([5, 6, 8]))]
         yield ("poly extrema %s" % hexcsv(cs), "extrema-high")
@@ -189,10 +230,24 @@ def compare(case, om, oi):
     if k == "touches":
         cs = [frac_of_bits(int(x, 16)) for x in _vals(w[2])]
         deg = len(cs) - 1
+        y = frac_of_bits(int(w[3], 16))
+
+        def near_solution(r):
+            """r in [0,1] (up to the root tolerance) and p(r) = y up to the tolerance times the slope bound: 'a solution that lies in [0,1]'"""
+            t = root_tol(deg, r)
+            if r is None or not (-t <= r <= 1 + t):
+                return False
+            val = sum(c * r ** j for j, c in enumerate(cs))
+            slope = sum(j * abs(c) for j, c in enumerate(cs)) * max(1, abs(r)) ** max(deg - 1, 0)
+            mag = sum(abs(c) * abs(r) ** j for j, c in enumerate(cs)) + abs(y)
+            return abs(val - y) <= t * slope + 16 * EPS * mag
         if om == "none":
             if oi != "touches=0":
-                # a root reported where none exists in [0,1]: accept only within tolerance outside the interval ends
+                # a root reported where the exact polynomial has none in [0,1]: fine when it is a solution within the
+                # tolerance (a root just outside an end of the interval, or a tangency the exact coefficients miss by a hair)
                 r = frac_of_bits(int(oi.split(":")[1], 16))
+                if near_solution(r):
+                    return None
                 return "touches: impl reports a root at %s, certified none in [0,1]" % (None if r is None else float(r))
             return None
         f = om.split(":")
@@ -206,8 +261,10 @@ def compare(case, om, oi):
             return "touches: impl reports no root, certified root in [%s, %s]" % (float(a), float(b))
         r = frac_of_bits(int(oi.split(":")[1], 16))
         if r is None or not (a - t <= r <= b + t):
-            # a later root instead of the leftmost one is wrong too
-            return "touches: impl root %s, certified leftmost root in [%s, %s]" % (None if r is None else float(r), float(a), float(b))
+            # C18 asks for 'a solution that lies in [0,1]', not for the leftmost one (that is C13's business)
+            if near_solution(r):
+                return None
+            return "touches: impl root %s is not a solution in [0,1]; certified leftmost root in [%s, %s]" % (None if r is None else float(r), float(a), float(b))
         return None
     if k == "extrema":
         cs = [frac_of_bits(int(x, 16)) for x in _vals(w[2])]
